@@ -114,3 +114,62 @@ def approveParticipation (st : NodeSt) (idOf : Option NOp) : ApproveOut :=
     | _ => { st := st, out := .reject }
 
 end Dc4bcVerif.Model.Node
+
+namespace Dc4bcVerif.Model.Node
+open Dc4bcVerif.Gen Dc4bcVerif.Model
+
+-- ───────────── re-initialisation from a dump (`reinitDKG`, after fix 840e470) ─────────────
+
+/-- a message of the dump, decoded like a board message, with the flag `isAdaptationPatch` (unsigned
+self-confirmation synthesised by the 0.1.4 adaptation) -/
+structure InnerMsg where
+  msg : NMsg
+  patch : Bool
+
+/-- the decoded `ReDKG` payload of a `reinit_dkg` message -/
+structure ReinitReq where
+  dkgId : String
+  /-- participant name ↦ new communication key -/
+  participants : List (String × Bytes)
+  inner : List InnerMsg
+
+/-- which messages of the dump are replayed: up to the first signing proposal; only those of the round being
+re-initialised; only those addressed to everybody or to this node -/
+def replayed (self dkgId : String) (im : InnerMsg) : Bool :=
+  im.msg.round == dkgId && (im.msg.recipient == "" || im.msg.recipient == self)
+
+def beforeSigning (inner : List InnerMsg) : List InnerMsg := inner.takeWhile (fun im => im.msg.event != "event_signing_start")
+
+/-- one replayed message: verification as configured, except for the unsigned 0.1.4 patches; the operation it gives
+rise to is collected, not stored; a rejected message changes nothing and is skipped -/
+def reinitStep (skip0 : Bool) (now : Time) (payloadOf : Tasks.Msg → Bytes) (acc : NodeSt × List NOp) (im : InnerMsg) : NodeSt × List NOp :=
+  let r := processMessage { acc.1 with skipVerify := skip0 || im.patch } im.msg now payloadOf
+  ({ r.st with skipVerify := skip0 },
+   match r.out, r.op with
+   | .ok, some op => acc.2 ++ [op]
+   | _, _ => acc.2)
+
+def reinitLoop (self dkgId : String) (skip0 : Bool) (now : Time) (payloadOf : Tasks.Msg → Bytes) (st : NodeSt) (inner : List InnerMsg) :
+    NodeSt × List NOp :=
+  ((beforeSigning inner).filter (replayed self dkgId)).foldl (reinitStep skip0 now payloadOf) (st, [])
+
+structure ReinitOut where
+  st : NodeSt
+  out : Outcome
+
+/-- `reinitDKG`: nothing if the round exists; otherwise replay, register the `reinit_dkg` operation (whose payload lists
+the collected operations), write the new communication keys into the round and save it under `dkg_id` -/
+def reinitDKG (st : NodeSt) (req : ReinitReq) (now : Time) (payloadOf : Tasks.Msg → Bytes) : ReinitOut :=
+  if (lookupS st.rounds req.dkgId).isSome then { st := st, out := .ok } else
+  let (st1, ops) := reinitLoop st.self req.dkgId st.skipVerify now payloadOf st req.inner
+  let op : NOp := ⟨"reinit_dkg", req.dkgId, .reinitOps (ops.map (·.type))⟩
+  match putOperation st1 op with
+  | none => { st := st1, out := .reject }
+  | some st2 =>
+    match getInstance st2 req.dkgId with
+    | none => { st := st2, out := .reject }
+    | some (_, inst) =>
+      let keys := req.participants.foldl (fun acc nk => assocSet acc nk.1 nk.2) inst.payload.pubKeys
+      { st := saveFSM st2 req.dkgId (inst.dumpState, { inst.payload with pubKeys := keys }), out := .ok }
+
+end Dc4bcVerif.Model.Node
